@@ -11,12 +11,18 @@
   `m_index` (the position of the script on the command line, which is unique) and returns the sibling hashes in
   the order `Prove` appends them (leaf level first).
 
+  With `--tx`/`--txin`: the check of the spent scriptPubKey, the witness written into the spending transaction (`setWitness`,
+  `txWitness`) and the reported signature hash (`calcSighash` = `configure_tx_txin` + `Instance::calc_sighash`), `runTx`.
+
   Hashing and curve arithmetic are parameters (`Tap.Ctx`); `Tap.glueCtx` is the concrete instance.
 -/
 import Btcdeb.Model.Session
 import Btcdeb.Model.GetOp
 import Btcdeb.Model.Value
 import Btcdeb.Model.Glue
+import Btcdeb.Model.Spend
+import Btcdeb.Model.Sighash
+import Btcdeb.Model.Encodings
 import Btcdeb.Spec.TapTree
 namespace Btcdeb.Model.Tap
 open Btcdeb Btcdeb.Model
@@ -158,6 +164,8 @@ inductive Err where
   | spendingLeaf         -- "Internal error: Spending leaf was not derived"                         tap.cpp:333
   | keyParse             -- "invalid input: pubkey invalid (parse failed)"                          tap.cpp:350
   | tweak                -- "failure: secp256k1_xonly_pubkey_tweak_add call failed"                 tap.cpp:355
+  | pubkeyMismatch       -- "pubkey mismatch: input transaction's vout[..].scriptPubKey ..."        tap.cpp:372,376
+  | addressAssert        -- `bech32::Encode` dies on `assert(c < 'A' || c > 'Z')` (upper-case prefix) tap.cpp:383, bech32.cpp:361
 deriving Repr, DecidableEq, Inhabited
 
 /-- what a successful run computes -/
@@ -204,10 +212,20 @@ def controlTail (internal : Bytes) (root : Node) (sel : Option (Nat × List Byte
 /-- the control byte: leaf version 0xc0 with the parity of the output key in the lowest bit (tap.cpp:410) -/
 def controlByte (odd : Bool) : UInt8 := if odd then 0xc1 else 0xc0
 
-/-- tap.cpp:382-413 and the witness items of 425-435 -/
-def finish (bech32m : String → Nat → Bytes → String) (hrp : String) (scripts : List Bytes) (rootHash tweak q : Bytes)
+/-- the pubkey check against the input transaction (tap.cpp:370-380): the scriptPubKey of the spent output must
+    end with the output key -/
+def spkMatches (spk outputKey : Bytes) : Bool :=
+  !(spk.length < outputKey.length) && spk.drop (spk.length - outputKey.length) == outputKey
+
+/-- `have_txs` and the scriptPubKey does not end with the output key -/
+def spkMismatch (spk : Option Bytes) (q : Bytes) : Bool :=
+  match spk with
+  | some s => !spkMatches s q
+  | none => false
+
+/-- tap.cpp:385-413 and the witness items of 425-435 -/
+def finish (address : String) (scripts : List Bytes) (rootHash tweak q : Bytes)
     (odd : Bool) (ctl : Bytes) (sel : Option (Nat × List Bytes)) : Output :=
-  let address := bech32m hrp 1 q
   match sel with
   | none =>
     { root := rootHash, tweak := tweak, outputKey := q, odd := odd, address := address,
@@ -220,9 +238,10 @@ def finish (bech32m : String → Nat → Bytes → String) (hrp : String) (scrip
 
 /-- `main` after option parsing, on decoded arguments: internal key bytes, the scripts (`script_count` = their
     number), and the spend selection (`spending_index`, spend arguments) if at least one spend argument is
-    present.  `bech32m hrp witver program` is `bech32::Encode(BECH32M, hrp, witver ‖ ConvertBits<8,5>(program))`
-    (`Value::do_bech32menc`, which fixes the witness version to 1). -/
-def run (cx : Ctx) (bech32m : String → Nat → Bytes → String) (hrp : String)
+    present.  `spk` is the scriptPubKey of the output being spent when `--tx` and `--txin` are given (`have_txs`).
+    `bech32m hrp witver program` is `bech32::Encode(BECH32M, hrp, witver ‖ ConvertBits<8,5>(program))`
+    (`Value::do_bech32menc`, which fixes the witness version to 1); `none` = the encoder's assertion fails. -/
+def run (cx : Ctx) (bech32m : String → Nat → Bytes → Option String) (hrp : String) (spk : Option Bytes)
     (internal : Bytes) (scripts : List Bytes) (sel : Option (Nat × List Bytes)) : Except Err Output :=
   if internal.length ≠ 32 then .error .keyLength
   else if scripts.length < 1 || scripts.length > 1024 then .error .scriptCount
@@ -242,16 +261,16 @@ def run (cx : Ctx) (bech32m : String → Nat → Bytes → String) (hrp : String
           else
             match cx.tweakAdd internal tweak with
             | none => .error .tweak
-            | some (q, odd) => .ok (finish bech32m hrp scripts root.hash tweak q odd ctl sel)
+            | some (q, odd) =>
+              if spkMismatch spk q then .error .pubkeyMismatch
+              else
+                match bech32m hrp 1 q with
+                | none => .error .addressAssert
+                | some address => .ok (finish address scripts root.hash tweak q odd ctl sel)
 
 /-- `PLACEHOLDER_SIGNATURE` (tap.cpp:44) -/
 def placeholderSignature : Bytes :=
   (List.range 64).map (fun i => UInt8.ofNat (i % 16))
-
-/-- the pubkey check against the input transaction (tap.cpp:370-380): the scriptPubKey of the spent output must
-    end with the output key -/
-def spkMatches (spk outputKey : Bytes) : Bool :=
-  !(spk.length < outputKey.length) && spk.drop (spk.length - outputKey.length) == outputKey
 
 /-- the witness stack written into `vin[txin_index]` when `--tx` and `--txin` are given and no private key is
     (tap.cpp:416-447, 486): the `--sig` signature or else the placeholder first, then (tapscript mode) the
@@ -274,8 +293,14 @@ def atolSize (s : Bytes) : Nat :=
   -- `long` saturates at LONG_MAX / LONG_MIN; then converted to `size_t`
   if neg then (2 ^ 64 - min v (2 ^ 63)) % 2 ^ 64 else min v (2 ^ 63 - 1)
 
+/-- the check on `--addrprefix` (BIP173: 1..83 characters in 33..126, no upper case — the encoder asserts on those) -/
+def hrpOk (hrp : String) : Bool :=
+  let b := hrp.toUTF8.toList
+  1 ≤ b.length && b.length ≤ 83 && b.all (fun c => 33 ≤ c.toNat && c.toNat ≤ 126 && !(65 ≤ c.toNat && c.toNat ≤ 90))
+
 inductive ArgErr where
   | usage                -- fewer than 3 positional arguments: the syntax text, exit 0
+  | prefix               -- "invalid address prefix ..." (tap.cpp, right after `bech32_hrp = ...`)
   | keyHex               -- "invalid internal pubkey ...: not parsable hex value"
   | missingScripts       -- "missing scripts"
   | value (e : VErr)     -- `Value(...)` exits or dies while reading a script or a spend argument
@@ -295,9 +320,10 @@ def mapMExcept {α β ε} (f : α → Except ε β) : List α → Except ε (Lis
 
 /-- `main` on the positional arguments `ca.l` (C strings as bytes), tap.cpp:134-281 then `run`.
     The spend arguments are read (tap.cpp:247-260) before the scripts (tap.cpp:265-275). -/
-def mainArgs (cx : Ctx) (vcx : VCtx) (bech32m : String → Nat → Bytes → String) (hrp : String)
+def mainArgs (cx : Ctx) (vcx : VCtx) (bech32m : String → Nat → Bytes → Option String) (hrp : String)
     (l : List Bytes) : Except ArgErr Output :=
   if l.length < 3 then .error .usage
+  else if !hrpOk hrp then .error .prefix
   else
     match tryHexArg (l.getD 0 []) with
     | none => .error .keyHex
@@ -338,9 +364,66 @@ def mainArgs (cx : Ctx) (vcx : VCtx) (bech32m : String → Nat → Bytes → Str
             match readScripts 0 scriptArgs with
             | .error e => .error e
             | .ok scripts =>
-              match run cx bech32m hrp internal scripts sel with
+              match run cx bech32m hrp none internal scripts sel with
               | .error e => .error (.tap e)
               | .ok o => .ok o
+
+/-! ## With `--tx` and `--txin`: the witness written into the transaction and the reported signature hash -/
+
+/-- `mtx.vin[txin_index].scriptWitness.stack = taproot_input_stack` and, if that is empty, one empty item
+    (tap.cpp:441-447) -/
+def setWitness (tx : Tx) (idx : Nat) (w : List Bytes) : Tx :=
+  { tx with vin := tx.vin.modify idx (fun i => { i with witness := if w.isEmpty then [[]] else w }) }
+
+inductive SighashErr where
+  | configure            -- `instance.configure_tx_txin()` returned false; tap ignores that and goes on with a half-set
+                         --   `Instance` (not modelled further)
+  | step (e : StepErr)   -- an assertion inside `PrecomputedTransactionData::Init` / `SignatureHashSchnorr`
+  | failed               -- "Failed to generate schnorr signature hash!" exit(1)
+deriving Repr, DecidableEq, Inhabited
+
+/-- tap.cpp:449-453 with `Instance::calc_sighash` (instance.cpp:678-691): `configure_tx_txin()`, the code separator
+    position forced to 0xffffffff, then `txdata = PrecomputedTransactionData(); txdata.Init(tx, {txin->vout[txin_vout_index]},
+    has_preamble); if (sigver == BASE) sigver = TAPROOT; SignatureHashSchnorr(hash, execdata, tx, txin_index, 0x00, sigver,
+    txdata, FAIL)`.  `tx` is the spending transaction with the witness already replaced. -/
+def calcSighash (h : HashCtx) (tc : TapCtx) (cr : SigCrypto) (tx txin : Tx) (idx vout : Nat) : Except SighashErr Bytes :=
+  match configureTxTxin h tc tx txin idx vout (if hasWitness tx then .WITNESS_V0 else .BASE) with
+  | none => .error .configure
+  | some c =>
+    let ed : ExecData := { c.execdata with codesepPos := 0xFFFFFFFF, codesepPosInit := true }
+    match calcSighashTxData cr tx (txin.vout.getD vout default) c.hasPreamble with
+    | .error e => .error (.step e)
+    | .ok txdata =>
+      let sv := if c.sigver == .BASE then SigVersion.TAPROOT else c.sigver
+      match schnorrSighashM cr ed tx idx 0x00 sv txdata .fail with
+      | .error e => .error (.step e)
+      | .ok (none, _) => .error .failed
+      | .ok (some hash, _) => .ok hash
+
+inductive TxErr where
+  | tap (e : Err)
+  | sighash (e : SighashErr)
+deriving Repr, DecidableEq, Inhabited
+
+/-- what tap prints with `--tx`/`--txin` and no private key: the run, "sighash (little endian) = ..", "Resulting transaction" -/
+structure TxOutput where
+  out : Output
+  sighash : Bytes
+  tx : Tx
+deriving Repr, DecidableEq
+
+/-- `main` with `--tx` and `--txin` already decoded and matched (`txin_index`, `txin_vout_index` from
+    `parse_input_transaction`), `premadeSig` = the `--sig` argument or empty (tap.cpp:370-380, 415-491) -/
+def runTx (cx : Ctx) (h : HashCtx) (tc : TapCtx) (cr : SigCrypto) (bech32m : String → Nat → Bytes → Option String) (hrp : String)
+    (tx txin : Tx) (idx vout : Nat) (premadeSig : Bytes)
+    (internal : Bytes) (scripts : List Bytes) (sel : Option (Nat × List Bytes)) : Except TxErr TxOutput :=
+  match run cx bech32m hrp (some (txin.vout.getD vout default).scriptPubKey) internal scripts sel with
+  | .error e => .error (.tap e)
+  | .ok out =>
+    let tx' := setWitness tx idx (txWitness premadeSig out)
+    match calcSighash h tc cr tx' txin idx vout with
+    | .error e => .error (.sighash e)
+    | .ok sh => .ok { out := out, sighash := sh, tx := tx' }
 
 /-! ## Concrete instance -/
 
@@ -349,6 +432,17 @@ def glueCtx : Ctx where
   taggedHash := fun tag msg => Crypto.taggedHash (Crypto.strBytes tag) msg
   xonlyParse := fun p => (Crypto.parseXOnly p).isSome
   tweakAdd := fun p t => (Crypto.xonlyTweakAdd p t).map (fun q => (Crypto.xonlyBytes q, q.hasOddY))
+
+/-- `Value::do_bech32menc` with `bech32_hrp = hrp` (value.h:464-470): `bech32::Encode(BECH32M, hrp, witver ‖ ConvertBits<8,5,true>(program))` -/
+def bech32mAddress (hrp : String) (witver : Nat) (program : Bytes) : Option String :=
+  let tmp := UInt8.ofNat witver :: ((convertBits 8 5 true (program.map UInt8.toNat)).1.map UInt8.ofNat)
+  (bech32Encode .BECH32M hrp.toUTF8.toList tmp).map strOfBytes
+
+/-- the hash functions `configure_tx_txin` uses -/
+def glueHashCtx : HashCtx where
+  sha256 := Crypto.sha256
+  hash160 := Crypto.hash160
+  hash256 := Crypto.hash256
 
 /-- `TaprootCommitmentEnv`: construct and call `Iterate()` until it stops answering `Processing`
     (what the debugger does while stepping through the commitment phase); `fuel` bounds the number of calls -/
